@@ -1,5 +1,6 @@
 SPECIFICATION Spec
-CONSTANTS NC = 3
+CONSTANTS
+ NC = 3
  MaxLen = 3
  B = 2
  MaxBad = 1
